@@ -1,0 +1,167 @@
+//! Verification hooks, compiled only with the cargo feature `verif-hooks`.
+//!
+//! Everything in here is inert unless a controller installs something on the current
+//! thread: without a dialer, a resolver table or a schedule-point callback the library
+//! behaves exactly as it does without the feature.
+#![allow(missing_docs)]
+
+use std::cell::RefCell;
+use std::fmt;
+use std::io::{self, Read, Write};
+use std::net::SocketAddr;
+use std::sync::Arc;
+
+use crate::request::BaseSettings;
+
+/// An in-memory (or otherwise scripted) transport standing in for the TCP connection.
+pub trait Transport: Read + Write + Send {}
+impl<T: Read + Write + Send> Transport for T {}
+
+/// What the connection routine wanted to dial.
+#[derive(Clone, Debug, PartialEq, Eq)]
+pub struct DialRequest {
+    pub scheme: String,
+    pub host: String,
+    pub port: u16,
+}
+
+pub type Dialer = Box<dyn FnMut(&DialRequest) -> Option<io::Result<Box<dyn Transport>>>>;
+pub type Resolver = Box<dyn Fn(&str, u16) -> Option<Vec<SocketAddr>>>;
+pub type PointFn = Arc<dyn Fn(&'static str, Option<SocketAddr>) + Send + Sync>;
+
+thread_local! {
+    static DIALER: RefCell<Option<Dialer>> = const { RefCell::new(None) };
+    static RESOLVER: RefCell<Option<Resolver>> = const { RefCell::new(None) };
+    static POINTS: RefCell<Option<PointFn>> = const { RefCell::new(None) };
+}
+
+/// Install (or remove) the transport factory of the current thread.
+pub fn set_dialer(dialer: Option<Dialer>) {
+    DIALER.with(|d| *d.borrow_mut() = dialer);
+}
+
+/// Install (or remove) the resolver override of the current thread.
+pub fn set_resolver(resolver: Option<Resolver>) {
+    RESOLVER.with(|r| *r.borrow_mut() = resolver);
+}
+
+/// Install (or remove) the schedule-point callback of the current thread. Helper threads
+/// spawned by the library on behalf of this thread inherit it through [`ctx`].
+pub fn set_points(points: Option<PointFn>) {
+    POINTS.with(|p| *p.borrow_mut() = points);
+}
+
+pub(crate) fn dial(scheme: &str, host: &str, port: u16) -> Option<io::Result<Box<dyn Transport>>> {
+    if scheme != "http" && scheme != "https" {
+        return None;
+    }
+    // The dialer is taken out while it runs so that it may itself use the library.
+    let mut dialer = DIALER.with(|d| d.borrow_mut().take())?;
+    let res = dialer(&DialRequest {
+        scheme: scheme.to_owned(),
+        host: host.to_owned(),
+        port,
+    });
+    DIALER.with(|d| {
+        let mut slot = d.borrow_mut();
+        if slot.is_none() {
+            *slot = Some(dialer);
+        }
+    });
+    res
+}
+
+pub(crate) fn resolve_override(domain: &str, port: u16) -> Option<Vec<SocketAddr>> {
+    RESOLVER.with(|r| r.borrow().as_ref().and_then(|f| f(domain, port)))
+}
+
+/// Handle on the schedule-point callback of the thread that created it.
+#[derive(Clone)]
+pub struct Ctx(Option<PointFn>);
+
+/// Capture the schedule-point callback of the current thread.
+pub fn ctx() -> Ctx {
+    Ctx(POINTS.with(|p| p.borrow().clone()))
+}
+
+impl Ctx {
+    #[inline]
+    pub fn point(&self, label: &'static str) {
+        if let Some(f) = &self.0 {
+            f(label, None);
+        }
+    }
+
+    #[inline]
+    pub fn point_addr(&self, label: &'static str, addr: SocketAddr) {
+        if let Some(f) = &self.0 {
+            f(label, Some(addr));
+        }
+    }
+}
+
+impl fmt::Debug for Ctx {
+    fn fmt(&self, f: &mut fmt::Formatter<'_>) -> fmt::Result {
+        write!(f, "Ctx({})", self.0.is_some())
+    }
+}
+
+pub(crate) struct TransportBox(pub Box<dyn Transport>);
+
+impl fmt::Debug for TransportBox {
+    fn fmt(&self, f: &mut fmt::Formatter<'_>) -> fmt::Result {
+        write!(f, "TransportBox")
+    }
+}
+
+/// Read-only picture of the effective settings of a session, builder or prepared request.
+#[derive(Clone, Debug, PartialEq, Eq)]
+pub struct SettingsSnapshot {
+    pub headers: Vec<(String, Vec<u8>)>,
+    pub n_root_certificates: usize,
+    pub max_headers: usize,
+    pub max_redirections: u32,
+    pub follow_redirects: bool,
+    pub connect_timeout_ms: u128,
+    pub read_timeout_ms: u128,
+    pub timeout_ms: Option<u128>,
+    pub proxy_settings: String,
+    pub accept_invalid_certs: bool,
+    pub accept_invalid_hostnames: bool,
+    pub default_charset: Option<String>,
+    pub allow_compression: Option<bool>,
+    /// Address and strong count of the shared settings cell (for the copy-on-write model).
+    pub cell: usize,
+    pub cell_refs: usize,
+}
+
+pub(crate) fn snapshot(settings: &Arc<BaseSettings>) -> SettingsSnapshot {
+    let s: &BaseSettings = settings;
+    SettingsSnapshot {
+        headers: s
+            .headers
+            .iter()
+            .map(|(k, v)| (k.as_str().to_owned(), v.as_bytes().to_vec()))
+            .collect(),
+        n_root_certificates: s.root_certificates.0.len(),
+        max_headers: s.max_headers,
+        max_redirections: s.max_redirections,
+        follow_redirects: s.follow_redirects,
+        connect_timeout_ms: s.connect_timeout.as_millis(),
+        read_timeout_ms: s.read_timeout.as_millis(),
+        timeout_ms: s.timeout.map(|t| t.as_millis()),
+        proxy_settings: format!("{:?}", s.proxy_settings),
+        accept_invalid_certs: s.accept_invalid_certs,
+        accept_invalid_hostnames: s.accept_invalid_hostnames,
+        #[cfg(feature = "charsets")]
+        default_charset: s.default_charset.map(|c| c.name().to_owned()),
+        #[cfg(not(feature = "charsets"))]
+        default_charset: None,
+        #[cfg(feature = "flate2")]
+        allow_compression: Some(s.allow_compression),
+        #[cfg(not(feature = "flate2"))]
+        allow_compression: None,
+        cell: Arc::as_ptr(settings) as usize,
+        cell_refs: Arc::strong_count(settings),
+    }
+}
